@@ -97,3 +97,32 @@ func VerifH_DeterminismPathBinding() {
 		verifrt.Reach("C03.pathbinding.rejected", true)
 	}
 }
+
+var verifMenuCross = []int{tTypeAny, tTag, tTags, tGetPath, tServer, tURL, tGet, tMacro, tPaste}
+
+// VerifH_CrossProject (C03, C16): processing another project in the same
+// process does not change the result of a project: B processed after A gives
+// the verdict, diagnostic and catalog of B processed first. Any state shared
+// between projects through package-level variables shows up as a difference.
+func VerifH_CrossProject() {
+	k := verifrt.Bound("K")
+	textB, _ := verifDocLines(verifMenuCross, k, true)
+	textA, _ := verifDocLines(verifMenuCross, k, true)
+	verifrt.Note("B", textB)
+	verifrt.Note("A", textA)
+	w0 := verifrt.SharedWrites()
+	core0, je0 := verifRun(textB)
+	_, _ = verifRun(textA)
+	core1, je1 := verifRun(textB)
+	verifrt.Assert("C16.no-write-to-process-wide-state", verifrt.SharedWrites() == w0)
+	verifrt.Assert("C03.cross.same-verdict", (je0 == nil) == (je1 == nil))
+	if je0 != nil && je1 != nil {
+		verifrt.Assert("C03.cross.same-diagnostic", je0.Msg == je1.Msg && je0.Index() == je1.Index() && je0.Line() == je1.Line())
+		verifrt.Reach("C03.cross.rejected", true)
+		return
+	}
+	if je0 == nil && je1 == nil {
+		verifrt.Assert("C03.cross.same-catalog", verifSameSig(verifSig(core0.catalog), verifSig(core1.catalog)))
+		verifrt.Reach("C03.cross.accepted", true)
+	}
+}
